@@ -232,6 +232,7 @@ CHECKS["C20"] = {
     "technique": "property-based testing (rapid) with a reference evaluator and a metamorphic re-parenthesisation relation",
     "nontrivial_floor": 500,
     "units": [
+        {"name": "by-value", "run": "^TestC20ByValue$", "kind": "plain"},
         {"name": "regress", "run": "^TestC20Regress$", "kind": "plain"},
         {"name": "typed", "run": "^TestC20Typed$", "kind": "rapid", "checks": {"quick": 8000, "thorough": 240000}, "shards": {"quick": 8, "thorough": 16}},
         {"name": "wild-nopanic", "run": "^TestC20Wild$", "kind": "rapid", "checks": {"quick": 6000, "thorough": 160000}, "shards": {"quick": 4, "thorough": 16}},
